@@ -273,10 +273,25 @@ Lemma div2_le n : (Nat.div2 n <= n)%nat.
 Proof. pose proof (Nat.div2_odd n) as H. lia. Qed.
 
 (* case analysis on a function id of the menu: ids 0 .. 15 one by one and a last case
-   S^16 id (the default branch of apply_fn).  The menu currently ends at 13; the two spare
-   levels fall into the default branch and are closed by the same tactics, so the menu can
+   S^16 id (the default branch of apply_fn).  The menu currently ends at 14; the spare
+   level falls into the default branch and is closed by the same tactics, so the menu can
    grow a little without the case analyses below having to be re-nested. *)
 Ltac menu_cases id := do 16 (try (destruct id as [|id]; [|])).
+(* a function of the menu may look at its argument before it decides what to return (id 14:
+   `match x with CNil :: _ => RNilRes | _ => RAny (rev x) end`); split the argument into the
+   shapes such a match distinguishes (empty / first cell by constructor) wherever the goal or
+   a hypothesis still contains a match on it, so that the match reduces; the remaining
+   occurrences of a non-empty argument are folded back into the variable (equation Earg), so
+   that the reasoning that follows sees `rev x`, `length x` as for the other functions.  Does
+   nothing for the functions that do not inspect their argument. *)
+Ltac arg_split x :=
+  let E := fresh "Earg" in let c := fresh "c" in let x' := fresh x in
+  destruct x as [|c x'] eqn:E; [|destruct c; try rewrite <- E in *].
+Ltac arg_cases x :=
+  try match goal with
+      | H : context [match x with nil => _ | cons _ _ => _ end] |- _ => arg_split x
+      | |- context [match x with nil => _ | cons _ _ => _ end] => arg_split x
+      end.
 
 (* Every function of the menu but the shortening one (10) returns at least as many cells
    as it receives, or a typed slice, which row-wise Apply does not take over at all (row_cells
@@ -287,7 +302,7 @@ Lemma row_cells_length id x : id <> 10%nat ->
   length (row_cells (length x) (apply_fn id x)) = length x.
 Proof.
   unfold row_cells. intros Hid.
-  menu_cases id; cbn [apply_fn];
+  menu_cases id; cbn [apply_fn]; arg_cases x;
     try (rewrite repeat_length; reflexivity); try congruence; rewrite firstn_length;
     rewrite ?rev_length, ?map_length, ?app_length; cbn [length]; lia.
 Qed.
@@ -556,7 +571,7 @@ Lemma apply_col_length id d r : fn_keeps_length id = true ->
   apply_col id d = Ok r -> length r = length d.
 Proof.
   unfold apply_col, fn_keeps_length.
-  menu_cases id; cbn [apply_fn]; intros Hk H;
+  menu_cases id; cbn [apply_fn]; intros Hk H; arg_cases d;
     try discriminate; inversion H;
     rewrite ?rev_length, ?repeat_length, ?map_length, ?seq_length; reflexivity.
 Qed.
@@ -578,7 +593,7 @@ Lemma apply_col_length_any id d r : apply_col id d = Ok r ->
              end.
 Proof.
   unfold apply_col.
-  menu_cases id; cbn [apply_fn]; intros H; try discriminate; inversion H;
+  menu_cases id; cbn [apply_fn]; intros H; arg_cases d; try discriminate; inversion H;
     rewrite ?map_length, ?app_length, ?map_length, ?rev_length, ?repeat_length, ?seq_length;
     cbn [length]; try reflexivity; try lia.
   apply firstn_length_le. apply div2_le.
